@@ -1054,3 +1054,362 @@ def entry_env(fn: ast.AST, env: dict[str, Optional[bool]]) -> dict[str, Optional
     """env without what it says about parameters that fn re-binds: a branch test that mentions such a one need not see the value at entry"""
     rebound = _stores(fn.body)  # type: ignore[attr-defined]
     return {k: v for k, v in env.items() if k.split(" ")[0] not in rebound}
+
+
+# ======================================================================================================================
+# Round 3: a loop over a literal table IS its unrolling; an in-place operator called as a function IS the augmented assignment
+# (every rule of C10 reads the update evaluators as a sequence of template mutations `<graph> -= / += <filled template>` in control-flow
+# order; a maintainer may fold the two phases into `for part, change, fresh in ((u.delete, operator.isub, False), (u.insert, operator.iadd,
+# True)): ...` - the callable `change` can evaluate to, the template `part` stands for and the order of the phases are what the TABLE
+# says, row by row.  `plain(mod)` gives the module with such loops written out and `operator.iXXX(a, b)` written `a X= b`; a module
+# without either is returned as it is)
+# ======================================================================================================================
+_INPLACE_OPS: dict[str, type] = {
+    "isub": ast.Sub, "iadd": ast.Add, "ior": ast.BitOr, "iand": ast.BitAnd, "ixor": ast.BitXor, "imul": ast.Mult,
+    "__isub__": ast.Sub, "__iadd__": ast.Add, "__ior__": ast.BitOr, "__iand__": ast.BitAnd, "__ixor__": ast.BitXor, "__imul__": ast.Mult,
+}
+
+
+def _operator_bindings(tree: ast.Module) -> tuple[set[str], dict[str, str]]:
+    """(names bound to the module `operator`, names bound to one of its functions -> that function) by the imports of the module"""
+    mods: set[str] = set()
+    direct: dict[str, str] = {}
+    for st in ast.walk(tree):
+        if isinstance(st, ast.Import):
+            for a in st.names:
+                if a.name == "operator":
+                    mods.add(a.asname or a.name)
+        elif isinstance(st, ast.ImportFrom) and st.module == "operator" and not st.level:
+            for a in st.names:
+                direct[a.asname or a.name] = a.name
+    return mods, direct
+
+
+def _display_rows(e: ast.AST) -> Optional[list[ast.expr]]:
+    if isinstance(e, (ast.Tuple, ast.List)) and not any(isinstance(x, ast.Starred) for x in e.elts):
+        return list(e.elts)
+    return None
+
+
+def _stable_cell(e: ast.AST) -> bool:
+    """a cell of a table that denotes the same value wherever it is read: a constant, a name, an attribute chain on a name"""
+    if isinstance(e, ast.Constant):
+        return True
+    while isinstance(e, ast.Attribute):
+        e = e.value
+    return isinstance(e, ast.Name)
+
+
+def _exits_loop(st: ast.AST) -> bool:
+    """does st contain a `continue` / `break` of the loop whose body it is in (not of a loop nested in st)"""
+    if isinstance(st, (ast.Continue, ast.Break)):
+        return True
+    if isinstance(st, (ast.For, ast.AsyncFor, ast.While)):
+        return any(_exits_loop(x) for x in st.orelse)
+    if isinstance(st, (ast.FunctionDef, ast.AsyncFunctionDef, ast.ClassDef, ast.Lambda)):
+        return False
+    return any(_exits_loop(c) for c in ast.iter_child_nodes(st))
+
+
+def _continue_as_condition(block: list[ast.stmt]) -> Optional[list[ast.stmt]]:
+    """the body of a loop with `if T: continue` at its top level written as `if not T: <rest>`; None where the body leaves the
+    iteration in another way"""
+    out: list[ast.stmt] = []
+    for i, st in enumerate(block):
+        if isinstance(st, ast.If) and not st.orelse and len(st.body) == 1 and isinstance(st.body[0], ast.Continue) and not _exits_loop(st.test):
+            rest = _continue_as_condition(block[i + 1:])
+            if rest is None:
+                return None
+            if rest:
+                t = st.test
+                neg = t.operand if isinstance(t, ast.UnaryOp) and isinstance(t.op, ast.Not) else ast.copy_location(ast.UnaryOp(op=ast.Not(), operand=t), t)
+                out.append(ast.copy_location(ast.If(test=neg, body=rest, orelse=[]), st))
+            return out
+        if _exits_loop(st):
+            return None
+        out.append(st)
+    return out
+
+
+def _table_of(fn: ast.AST, block: list[ast.stmt], i: int) -> Optional[list[ast.expr]]:
+    """the rows the loop block[i] iterates, where that is a display written in the loop header, or a local that is bound once, to a
+    display, by a statement of the same block before the loop, and read by nothing but this loop"""
+    loop = block[i]
+    it = loop.iter  # type: ignore[attr-defined]
+    rows = _display_rows(it)
+    if rows is not None:
+        return rows
+    if not isinstance(it, ast.Name):
+        return None
+    occ = [n for n in ast.walk(fn) if isinstance(n, ast.Name) and n.id == it.id]
+    if len(occ) != 2 or it.id in {a.arg for a in ast.walk(fn) if isinstance(a, ast.arg)}:
+        return None
+    for st in block[:i]:
+        v = bound_value(st, it.id) if isinstance(st, (ast.Assign, ast.AnnAssign)) else None
+        if v is not None:
+            return _display_rows(v)
+    return None
+
+
+def _unrolled(fn: ast.AST, block: list[ast.stmt], i: int) -> Optional[list[ast.stmt]]:
+    loop = block[i]
+    if not isinstance(loop, ast.For) or loop.orelse:
+        return None
+    tg = loop.target
+    names = [tg] if isinstance(tg, ast.Name) else list(tg.elts) if isinstance(tg, (ast.Tuple, ast.List)) else None
+    if not names or not all(isinstance(n, ast.Name) for n in names):
+        return None
+    ids = [n.id for n in names]  # type: ignore[attr-defined]
+    if len(set(ids)) != len(ids):
+        return None
+    rows = _table_of(fn, block, i)
+    if not rows or len(rows) > 8:
+        return None
+    cells: list[list[ast.expr]] = []
+    for r in rows:
+        c = [r] if isinstance(tg, ast.Name) else _display_rows(r)
+        if c is None or len(c) != len(ids) or not all(_stable_cell(x) for x in c):
+            return None
+        cells.append(c)
+    # the loop variables live in the loop only, and nothing in the loop re-binds them or what a cell is read from
+    inside = {id(n) for n in ast.walk(loop)}
+    for n in ast.walk(fn):
+        if isinstance(n, ast.Name) and n.id in ids and id(n) not in inside:
+            return None
+        if isinstance(n, ast.arg) and n.arg in ids:
+            return None
+    cell_texts = {norm(x) for c in cells for x in c if not isinstance(x, ast.Constant)}
+    cell_roots = {t.split(".")[0] for t in cell_texts}
+    for st in loop.body:
+        for n in ast.walk(st):
+            if isinstance(n, (ast.FunctionDef, ast.AsyncFunctionDef, ast.ClassDef, ast.Lambda)):
+                return None
+            if isinstance(n, ast.Name) and not isinstance(n.ctx, ast.Load) and (n.id in ids or n.id in cell_roots):
+                return None
+            if isinstance(n, ast.Attribute) and not isinstance(n.ctx, ast.Load) and any(t == norm(n) or t.startswith(norm(n) + ".") for t in cell_texts):
+                return None
+    body = _continue_as_condition(loop.body)
+    if body is None:
+        return None
+    out: list[ast.stmt] = []
+    for c in cells:
+        sub = _Subst(dict(zip(ids, c)))
+        for st in body:
+            out.append(sub.visit(_copy.deepcopy(st)))
+    return out
+
+
+def _unroll_block(fn: ast.AST, block: list[ast.stmt]) -> bool:
+    changed = False
+    i = 0
+    while i < len(block):
+        st = block[i]
+        if isinstance(st, (ast.FunctionDef, ast.AsyncFunctionDef, ast.ClassDef)):
+            i += 1
+            continue
+        if isinstance(st, ast.For):
+            new = _unrolled(fn, block, i)
+            if new is not None:
+                block[i:i + 1] = new
+                changed = True
+                continue  # the rows are read again: a table loop in a table loop
+        for fld in ("body", "orelse", "finalbody"):
+            sub = getattr(st, fld, None)
+            if isinstance(sub, list) and sub and isinstance(sub[0], ast.stmt):
+                changed |= _unroll_block(fn, sub)
+        for h in getattr(st, "handlers", []) or []:
+            changed |= _unroll_block(fn, h.body)
+        i += 1
+    return changed
+
+
+class _FoldPlain(ast.NodeTransformer):
+    """`X if <constant> else Y`, `if <constant>:` decided; `t = operator.isub(t, v)` / the bare call written `t -= v`"""
+
+    def __init__(self, mods: set[str], direct: dict[str, str]):
+        self.mods, self.direct = mods, direct
+        self.changed = False
+        self.fresh = 0
+
+    def _op(self, f: ast.AST) -> Optional[type]:
+        if isinstance(f, ast.Attribute) and isinstance(f.value, ast.Name) and f.value.id in self.mods:
+            return _INPLACE_OPS.get(f.attr)
+        if isinstance(f, ast.Name) and f.id in self.direct:
+            return _INPLACE_OPS.get(self.direct[f.id])
+        return None
+
+    def _call(self, v: ast.AST) -> Optional[tuple[type, ast.expr, ast.expr]]:
+        if isinstance(v, ast.Call) and len(v.args) == 2 and not v.keywords and not any(isinstance(a, ast.Starred) for a in v.args):
+            op = self._op(v.func)
+            if op is not None:
+                return op, v.args[0], v.args[1]
+        return None
+
+    def visit_IfExp(self, node: ast.IfExp):  # noqa: N802
+        self.generic_visit(node)
+        if isinstance(node.test, ast.Constant):
+            self.changed = True
+            return node.body if node.test.value else node.orelse
+        return node
+
+    def visit_If(self, node: ast.If):  # noqa: N802
+        self.generic_visit(node)
+        if isinstance(node.test, ast.Constant):
+            self.changed = True
+            return (node.body if node.test.value else node.orelse) or ast.copy_location(ast.Pass(), node)
+        return node
+
+    @staticmethod
+    def _store(e: ast.expr) -> ast.expr:
+        e = _copy.deepcopy(e)
+        e.ctx = ast.Store()  # type: ignore[attr-defined]
+        return e
+
+    def visit_Assign(self, node: ast.Assign):  # noqa: N802
+        self.generic_visit(node)
+        c = self._call(node.value)
+        if c is not None and len(node.targets) == 1 and isinstance(node.targets[0], (ast.Name, ast.Attribute, ast.Subscript)) and norm(node.targets[0]) == norm(c[1]):
+            self.changed = True
+            return ast.copy_location(ast.AugAssign(target=node.targets[0], op=c[0](), value=c[2]), node)
+        return node
+
+    def visit_Expr(self, node: ast.Expr):  # noqa: N802
+        self.generic_visit(node)
+        c = self._call(node.value)
+        if c is None:
+            return node
+        self.changed = True
+        op, recv, val = c
+        if isinstance(recv, (ast.Name, ast.Attribute, ast.Subscript)):
+            return ast.copy_location(ast.AugAssign(target=self._store(recv), op=op(), value=val), node)
+        # the receiver is computed: it is held in a local of its own, as `g = <receiver>; g -= <value>`
+        self.fresh += 1
+        nm = "_receiver_%d_%d" % (getattr(node, "lineno", 0), self.fresh)
+        bind = ast.copy_location(ast.Assign(targets=[ast.copy_location(ast.Name(id=nm, ctx=ast.Store()), recv)], value=recv), node)
+        aug = ast.copy_location(ast.AugAssign(target=ast.copy_location(ast.Name(id=nm, ctx=ast.Store()), recv), op=op(), value=val), node)
+        return [bind, aug]
+
+
+def plain(mod):
+    """`mod` with its loops over literal tables written out row by row and the in-place operators of `operator` written as augmented
+    assignments (positions kept, so the typed facts still apply); `mod` itself where there is nothing of the kind"""
+    from .core import Module
+
+    cached = getattr(mod, "_c10_plain", None)
+    if cached is not None:
+        return cached
+    tree = _copy.deepcopy(mod.tree)
+    changed = False
+    for fn in [n for n in ast.walk(tree) if isinstance(n, (ast.FunctionDef, ast.AsyncFunctionDef))]:
+        changed |= _unroll_block(fn, fn.body)
+    mods, direct = _operator_bindings(tree)
+    fold = _FoldPlain(mods, direct)
+    if changed or mods or direct:
+        tree = fold.visit(tree)
+        changed |= fold.changed
+    out = mod
+    if changed:
+        ast.fix_missing_locations(tree)
+        out = Module(mod.name, mod.path, mod.rel, mod.text, tree=tree)
+    try:
+        mod._c10_plain = out
+    except Exception:
+        pass
+    return out
+
+
+def reaching_assignments(mod, fn: ast.AST, use: ast.Name) -> list[Optional[ast.AST]]:
+    """the statements whose binding of the local `use.id` can reach the evaluation of `use` (reaching definitions on the statement CFG);
+    None stands for a binding that is not a plain assignment `name = value` (loop variable, unpacking, augmented, with ... as)"""
+    du = DefUse(mod, fn, set())
+    out: list[Optional[ast.AST]] = []
+    for kind, src, _ in du.bindings(use.id, use):
+        st = mod.parent.get(id(src)) if kind == "assign" else None
+        if isinstance(st, (ast.Assign, ast.AnnAssign)) and st.value is src and (isinstance(st, ast.AnnAssign) or len(st.targets) == 1 and isinstance(st.targets[0], ast.Name)):
+            out.append(st)
+        else:
+            out.append(None)
+    return out
+
+
+def precedes_in(mod, scope: ast.AST, st: ast.AST, node: ast.AST) -> bool:
+    """st, a statement of scope.body, comes before the statement of scope.body that contains node"""
+    body = list(getattr(scope, "body", []))
+    top = node
+    for p in mod.parents(node):
+        if p is scope:
+            break
+        top = p
+    else:
+        return False
+    idx = {id(s): i for i, s in enumerate(body)}
+    return id(st) in idx and id(top) in idx and idx[id(st)] < idx[id(top)]
+
+
+def looked_up_through(fn: ast.AST, param: str) -> bool:
+    """is the value of parameter `param` subscripted in fn: under its own name, or under a local bound once, by a plain copy `x = param` (copies of
+    copies too), in the body of fn or in a function nested in it that does not bind that name itself"""
+    names = {param}
+
+    def once(name: str) -> bool:  # a local that is nothing but the copy: bound by that one statement of fn
+        return sum(1 for x in ast.walk(fn) if isinstance(x, ast.Name) and x.id == name and isinstance(x.ctx, (ast.Store, ast.Del))) == 1
+
+    grew = True
+    while grew:
+        grew = False
+        for n in own_nodes(fn):
+            v, t = None, None
+            if isinstance(n, ast.Assign) and len(n.targets) == 1:
+                t, v = n.targets[0], n.value
+            elif isinstance(n, ast.AnnAssign):
+                t, v = n.target, n.value
+            if isinstance(t, ast.Name) and isinstance(v, ast.Name) and v.id in names and t.id not in names and once(t.id):
+                names.add(t.id)
+                grew = True
+
+    def scan(node: ast.AST, live: set[str]) -> bool:
+        for c in ast.iter_child_nodes(node):
+            if isinstance(c, (ast.FunctionDef, ast.AsyncFunctionDef, ast.Lambda)):
+                own = {a.arg for a in ast.walk(c.args) if isinstance(a, ast.arg)}
+                if not isinstance(c, ast.Lambda):
+                    own |= _stores(c.body)
+                if scan(c, live - own):
+                    return True
+                continue
+            if isinstance(c, ast.Subscript) and isinstance(c.value, ast.Name) and c.value.id in live:
+                return True
+            if scan(c, live):
+                return True
+        return False
+
+    return scan(fn, names)
+
+
+def is_operation_name(du: "DefUse", e: ast.AST) -> bool:
+    """does e denote the name of the operation being translated: `<x>.name`, or a local whose one binding is a plain copy of that"""
+    if norm(e).endswith(".name"):
+        return True
+    if isinstance(e, ast.Name):
+        bs = du.bindings(e.id)
+        return len(bs) == 1 and bs[0][0] == "assign" and isinstance(bs[0][1], ast.Attribute) and bs[0][1].attr == "name"
+    return False
+
+
+def constant_members(mod, k: ast.AST, depth: int = 0) -> Optional[set]:
+    """the constants a collection expression holds: a display of constants, frozenset/set/tuple/list of one, or a name of the module that
+    is bound exactly once in the whole module, at its top level, to one of these; None where it cannot be told"""
+    if isinstance(k, (ast.Tuple, ast.List, ast.Set)):
+        return {x.value for x in k.elts if isinstance(x, ast.Constant)}
+    if isinstance(k, ast.Call) and isinstance(k.func, ast.Name) and k.func.id in ("frozenset", "set", "tuple", "list") and len(k.args) == 1 and not k.keywords:
+        return constant_members(mod, k.args[0], depth)
+    if isinstance(k, ast.Name) and depth < 3:
+        stores = [n for n in ast.walk(mod.tree) if isinstance(n, ast.Name) and n.id == k.id and isinstance(n.ctx, (ast.Store, ast.Del))]
+        args = [a for a in ast.walk(mod.tree) if isinstance(a, ast.arg) and a.arg == k.id]
+        if len(stores) != 1 or args:
+            return None
+        for st in mod.tree.body:
+            if isinstance(st, (ast.Assign, ast.AnnAssign)):
+                v = bound_value(st, k.id)
+                if v is not None:
+                    return constant_members(mod, v, depth + 1)
+    return None
